@@ -24,6 +24,11 @@ def histories(alphabet, depth, reduced=None, reduced_depth=0):
 
 def apply_op(m, op):
     name, value = op
+    if name == '__multi__':
+        # several parameters written between two evaluations (a sampler writes the whole vector at once)
+        for sub in value:
+            apply_op(m, sub)
+        return
     if name == 'star_temperature':
         m.star.temperature = value
     elif name == 'star_radius':
@@ -37,7 +42,7 @@ def evaluate(m, wngrid=None):
     return np.array(g, float), np.array(s, float), np.array(t, float)
 
 
-def run_history(r, hist, build, tag, extra_eval=None):
+def run_history(r, hist, build, tag, extra_eval=None, env_apply=None):
     """build() -> fresh model with caches installed (must call fx.reset_caches itself when the
     opacity tables are process-wide).  The live model and every fresh model share the installed
     opacity tables (they are inputs, not state under test)."""
@@ -49,21 +54,48 @@ def run_history(r, hist, build, tag, extra_eval=None):
     first = evaluate(live)          # populate every cache with the initial settings
     net = {}
     names = []
+    win = [None]
+    env = [None]        # latest ['__env__', value]: process-wide configuration (e.g. which opacity files are installed),
+    #                     re-applied after every build() because build() resets the process to its default environment
+
+    def ev(m):
+        return evaluate(m, None if win[0] is None else np.array(win[0], dtype=float))
     for k, op in enumerate(hist):
-        apply_op(live, op)
-        net[op[0]] = op[1]
-        names.append(op[0])
+        if op[0] == '__window__':
+            # from now on the model is evaluated on this requested grid (None: the full native grid)
+            win[0] = op[1]
+            names.append('window%s' % ('-full' if op[1] is None else len(op[1])))
+        elif op[0] == '__env__':
+            env[0] = op[1]
+            env_apply(op[1])
+            names.append('env-%s' % op[1])
+        else:
+            apply_op(live, op)
+        if op[0] in ('__window__', '__env__'):
+            pass
+        elif op[0] == '__multi__':
+            for sub in op[1]:
+                net[sub[0]] = sub[1]
+            names.append('+'.join(sub[0] for sub in op[1]))
+        else:
+            net[op[0]] = op[1]
+            names.append(op[0])
         sig = '%s/ops=%s' % (tag, '>'.join(names))
         try:
-            got = evaluate(live)
+            got = ev(live)
         except Exception as e:
             r.check(False, 'history-no-exception', 'history-exception/%s/%s' % (type(e).__name__, sig), exc=repr(e),
                     hist=hist[:k + 1])
             return
         fresh = build()
+        if env[0] is not None:
+            env_apply(env[0])
         for n_ in sorted(net):
             apply_op(fresh, [n_, net[n_]])
-        want = evaluate(fresh)
+        want = ev(fresh)
+        r.eq(got[0], want[0], 'history-grid', 'history-grid/' + sig, rtol=0.0, atol=0.0, hist=hist[:k + 1])
+        if got[0].shape != want[0].shape:
+            return
         ok = r.eq(got[1], want[1], 'history-independence', 'history/' + sig, rtol=1e-12, atol=0.0, hist=hist[:k + 1])
         r.eq(got[2], want[2], 'history-independence-tau', 'history-tau/' + sig, rtol=1e-12, atol=1e-300,
              hist=hist[:k + 1])
@@ -72,6 +104,9 @@ def run_history(r, hist, build, tag, extra_eval=None):
         r.observe(got[1])
         if not ok:
             return
+    if env[0] is not None:
+        r.nontrivial = len(hist) > 1
+        return          # the bystander would be evaluated in another environment than at the start
     twin_last = evaluate(twin)
     r.eq(twin_last[1], twin_first[1], 'bystander-unaffected', 'bystander/%s/ops=%s' % (tag, '>'.join(names)), rtol=0.0,
          atol=0.0, hist=hist)
